@@ -79,7 +79,7 @@ def _res_unwrap(eng, st, fr, t, args, dest, target):
     vn, v = variant_of(eng, st, args[0], RES)
     if vn == 'Ok':
         return payload(eng, st, v, 'Ok')
-    raise PathEnd('panic', ('unwrap-on-Err', fr.body.path, t.get('span')))
+    raise PathEnd('panic', ('unwrap-on-Err', fr.body.path, t.get('span'), v if v[0] != 'enum' else None))
 
 
 @model('std::result::Result::<T, E>::unwrap_err')
@@ -95,7 +95,7 @@ def _opt_unwrap(eng, st, fr, t, args, dest, target):
     vn, v = variant_of(eng, st, args[0], OPT)
     if vn == 'Some':
         return payload(eng, st, v, 'Some')
-    raise PathEnd('panic', ('unwrap-on-None', fr.body.path, t.get('span')))
+    raise PathEnd('panic', ('unwrap-on-None', fr.body.path, t.get('span'), v))
 
 
 @model('std::result::Result::<T, E>::map')
@@ -635,6 +635,10 @@ def _vec_push(eng, st, fr, t, args, dest, target):
     r, p = ptr_of(eng, st, args[0])
     v = eng.force(st, eng.load(st, r, p))
     lid = eng.enclosing_loop(fr)
+    if lid is not None and v[0] == 'vec':
+        seen = fr.loops.get(lid[1])
+        if not seen or not seen[-1][3]:
+            lid = None          # the loop is (so far) iterated concretely
     if lid is not None:
         if v[0] == 'vecsum' and v[2] == lid and v[3] == args[1]:
             return UNIT
@@ -652,11 +656,15 @@ def _vec_insert(eng, st, fr, t, args, dest, target):
     r, p = ptr_of(eng, st, args[0])
     v = eng.force(st, eng.load(st, r, p))
     i = eng.force(st, args[1])
-    if v[0] == 'vec' and is_const(i) and cval(i) <= len(v[1]):
+    if v[0] == 'vec' and is_const(i):
+        if cval(i) > len(v[1]):
+            raise PathEnd('panic', ('insert-out-of-bounds', cval(i), len(v[1]), fr.body.path, t.get('span')))
         items = list(v[1])
         items.insert(cval(i), args[2])
         eng.store(st, r, p, ('vec', tuple(items)))
     else:
+        eng.event(st, 'incomplete', what='Vec::insert at an unknown position', fn=fr.body.path)
+        eng.incomplete.append(('vec-insert', fr.body.path, fr.block))
         eng.store(st, r, p, ('app', 'vec_insert', (v, i, args[2])))
     return UNIT
 
@@ -758,6 +766,11 @@ def _ri_new(eng, st, fr, t, args, dest, target):
 def _ri_contains(eng, st, fr, t, args, dest, target):
     rg = deref(eng, st, args[0])
     x = eng.deref_arg(st, args[1])
+    if rg[0] == 'rangeincl' and is_const(rg[1]) and is_const(rg[2]) and is_const(x):
+        try:
+            return cbool(cval(rg[1]) <= cval(x) <= cval(rg[2]))
+        except TypeError:
+            pass
     return ('app', 'contains', (rg, x))
 
 
@@ -785,3 +798,54 @@ def _f64_rem(eng, st, fr, t, args, dest, target):
 @model('std::clone::Clone::clone')
 def _clone_generic(eng, st, fr, t, args, dest, target):
     return deref(eng, st, args[0])
+
+
+# ------------------------------------------------------------------- fold
+def _seq_of_iter(eng, st, it):
+    """(enumerate?, items | None, length | None, purified iterator) of a slice/array iterator"""
+    enum = False
+    if it[0] == 'iter' and it[1] == 'enumerate':
+        enum = True
+        it = it[2]
+    items = None
+    n = None
+    if it[0] == 'iter' and it[1] == 'seq':
+        items = _concrete_seq(eng, st, it)
+        n = len(items) if items is not None else eng.seq_len(st, it[2])
+    return enum, items, n
+
+
+def _fold(eng, st, fr, t, args, dest, target):
+    it = eng.force(st, args[0])
+    f = args[2]
+    enum, items, n = _seq_of_iter(eng, st, it)
+    lid = ('fold', fr.body.path, fr.block)
+    if items is not None and len(items) <= 8:
+        return _drive_fold(eng, st, dest, target, f, items, 0, args[1], enum)
+    pit = eng.purify(st, it)
+    elem = ('iterval', lid, pit)
+    idx = ('bounded', 0, n, lid)
+    item = ('tuple', (idx, elem)) if enum else elem
+    acc = ('foldacc', lid, eng.purify(st, args[1]))
+
+    def cont(st, fr2, dest, target, rv):
+        eng.finish_call(st, fr2, dest, target, ('app', 'fold', (pit, eng.purify(st, args[1]), eng.purify(st, rv))))
+    eng.call_callable(st, f, [acc, item], ('seq', dest, target, cont))
+    return DEFER
+
+
+def _drive_fold(eng, st, dest, target, f, items, i, acc, enum):
+    if i >= len(items):
+        eng.finish_call(st, st.frames[-1], dest, target, acc)
+        return DEFER
+    item = ('tuple', (C('usize', i), items[i])) if enum else items[i]
+
+    def cont(st, fr2, dest, target, rv, i=i):
+        _drive_fold(eng, st, dest, target, f, items, i + 1, rv, enum)
+    eng.call_callable(st, f, [acc, item], ('seq', dest, target, cont))
+    return DEFER
+
+
+for _n in ('<std::iter::Enumerate<I> as std::iter::Iterator>::fold', "<std::slice::Iter<'a, T> as std::iter::Iterator>::fold",
+           'std::iter::Iterator::fold'):
+    MODELS[_n] = _fold
